@@ -415,8 +415,26 @@ func (vc *VC) havocAllHeaps(st *State) {
 			vc.assumes["fields of the struct types declared private in the contract files are written only by functions of their own package (unknown callees do not call back into it)"] = true
 			continue
 		}
+		if isChanGhostHeap(n) {
+			// the channel-operation ghosts count the operations executed by
+			// the verified function itself (and by callees whose contracts
+			// say so, see modularCall): unknown code does not change them
+			continue
+		}
 		vc.havocHeap(st, n)
 	}
+}
+
+// chanGhostNames are the ghost maps govc maintains at channel operations.
+var chanGhostNames = []string{"chsends", "chrecvs", "chrecvsclosed", "chcloses", "chlast", "chlastrecv"}
+
+func isChanGhostHeap(h string) bool {
+	for _, g := range chanGhostNames {
+		if h == quote("GH:"+g) {
+			return true
+		}
+	}
+	return false
 }
 
 func (vc *VC) bumpWatermark(st *State) {
@@ -569,6 +587,17 @@ func (vc *VC) storeStructAt(st *State, t types.Type, ref Term, v Term) {
 		fv := Term{"(" + structSel(t, f.Name(), i) + " " + v.S + ")", vc.sortOf(f.Type())}
 		st.heaps[name] = vc.def("h", store(h, ref, fv))
 	}
+}
+
+// assumeRType records the dynamic type of a freshly allocated object:
+// rtype(ref) is the tag of the allocated type (struct, map, slice backing
+// array, channel, closure). References are untyped integers; contracts that
+// quantify over all references of a type ("forall e *Entry :: ...") guard
+// their bodies with isa(e, "Entry") to leave out objects of other types
+// allocated in the same range.
+func (vc *VC) assumeRType(pc Term, ref Term, t types.Type) {
+	vc.declare("rtype", "(declare-fun rtype (Int) Int)")
+	vc.assume(pc, eq(T(SInt, "(rtype %s)", ref.S), vc.typeTag(t)))
 }
 
 // allocRef returns a fresh reference and advances the watermark.
